@@ -245,20 +245,20 @@ static void gen_bytes(uint64_t key, uint64_t off, unsigned char *p, size_t n)
 	for (; i < n; i++) { uint64_t v = ((off + i) >> 3) ^ key; p[i] = (unsigned char)(v >> (8 * ((off + i) & 7))); }
 }
 /* verify bytes the application consumed; on the first mismatch classify it */
-static void verify_bytes(struct endpoint *ep, const unsigned char *p, size_t n)
+static void verify_at(struct endpoint *ep, uint64_t at, const unsigned char *p, size_t n)
 {
 	static unsigned char exp[65536];
 	size_t done = 0;
-	if (ep->broken) { ep->consumed += n; return; }
+	if (ep->broken) return;
 	while (done < n) {
 		size_t m = n - done > sizeof(exp) ? sizeof(exp) : n - done, i;
-		gen_bytes(ep->rkey, ep->consumed, exp, m);
+		gen_bytes(ep->rkey, at, exp, m);
 		if (memcmp(exp, p + done, m) != 0) {
 			uint64_t off, want_blk, got_blk = 0;
 			const char *rule = "stream-corrupt";
 			char hx[40];
 			for (i = 0; i < m && exp[i] == p[done + i]; i++) ;
-			off = ep->consumed + i;
+			off = at + i;
 			want_blk = off >> 3;
 			/* decode the next aligned block of what we got, to locate it in the stream */
 			{
@@ -274,14 +274,13 @@ static void verify_bytes(struct endpoint *ep, const unsigned char *p, size_t n)
 				side_name(ep), (unsigned long long)off, (unsigned long long)want_blk, hx, (unsigned long long)got_blk,
 				(unsigned long long)peer(ep)->written);
 			ep->broken = 1; ep->s->ended = 1;
-			ep->consumed += n - done;
 			return;
 		}
-		ep->consumed += m; done += m;
+		at += m; done += m;
 	}
-	if (ep->consumed > peer(ep)->written) {
+	if (at > peer(ep)->written) {
 		vh_viol(mkkey(ep->s, "stream-extra"), "%s reader consumed %llu bytes but peer wrote only %llu", side_name(ep),
-			(unsigned long long)ep->consumed, (unsigned long long)peer(ep)->written);
+			(unsigned long long)at, (unsigned long long)peer(ep)->written);
 		ep->broken = 1; ep->s->ended = 1;
 	}
 }
@@ -457,6 +456,7 @@ static void mon_in_cb(struct evbuffer *buf, const struct evbuffer_cb_info *info,
 	struct bufferevent *bev = l->bev;
 	size_t len = evbuffer_get_length(buf), high;
 	int top = (m->layer == ep->nl - 1);
+	if (vh_opt.verbose > 1 && top) VLOG("  [%s] top input change: orig=%zu +%zu -%zu -> %zu", side_name(ep), info->orig_size, info->n_added, info->n_deleted, len);
 	if (!info->n_added || ep->freed || !bev) return;
 	high = bev->wm_read.high;
 	if (high) vh_stat("in_growth_checked_vs_high");
@@ -516,21 +516,32 @@ static int top_deferred(struct endpoint *ep)
 	struct layer *l = &ep->L[ep->nl - 1];
 	return (l->opts & BEV_OPT_DEFER_CALLBACKS) || l->kind == LK_PAIR;
 }
+static int consume_depth;
+/* The application removes up to max bytes from its input and checks them.  A non-deferred
+ * bufferevent may run the read callback again from inside the removal call (draining below
+ * the high watermark resumes reading synchronously), so the stream position of the bytes
+ * being removed is reserved before the call and the bytes are checked against it after. */
 static size_t consume(struct endpoint *ep, size_t max)
 {
 	struct evbuffer *in;
 	size_t len, n, got = 0, m;
+	uint64_t at;
 	int r;
 	if (ep->freed) return 0;
 	in = bufferevent_get_input(ep->top);
 	len = evbuffer_get_length(in);
 	n = len < max ? len : max;
 	if (!n) return 0;
+	if (consume_depth) vh_stat("consume_nested_in_drain");
+	consume_depth++;
 	switch (ep->rd_api) {
 	case 1: {
 		struct evbuffer *tmp = evbuffer_new();
+		at = ep->consumed; ep->consumed += n;
 		r = evbuffer_remove_buffer(in, tmp, n);
-		if (r > 0) { verify_bytes(ep, evbuffer_pullup(tmp, -1), (size_t)r); got = (size_t)r; }
+		if (r != (int)n) { vh_viol(mkkey(ep->s, "remove-short"), "evbuffer_remove_buffer(input, %zu) returned %d with %zu buffered", n, r, len); ep->s->ended = 1; }
+		else verify_at(ep, at, evbuffer_pullup(tmp, -1), n);
+		got = n;
 		evbuffer_free(tmp);
 		break; }
 	case 2:
@@ -538,30 +549,36 @@ static size_t consume(struct endpoint *ep, size_t max)
 			m = evbuffer_get_contiguous_space(in);
 			if (!m) break;
 			if (m > n - got) m = n - got;
-			verify_bytes(ep, evbuffer_pullup(in, (ev_ssize_t)m), m);
-			evbuffer_drain(in, m);
+			verify_at(ep, ep->consumed, evbuffer_pullup(in, (ev_ssize_t)m), m);
+			ep->consumed += m;
 			got += m;
+			evbuffer_drain(in, m);
 		}
 		break;
 	case 3:
 		if (n == len) {
 			struct evbuffer *tmp = evbuffer_new();
+			at = ep->consumed; ep->consumed += n;
 			bufferevent_read_buffer(ep->top, tmp);
 			got = evbuffer_get_length(tmp);
-			if (got) verify_bytes(ep, evbuffer_pullup(tmp, -1), got);
+			if (got != n) { vh_viol(mkkey(ep->s, "remove-short"), "bufferevent_read_buffer moved %zu of %zu buffered bytes", got, n); ep->s->ended = 1; }
+			else verify_at(ep, at, evbuffer_pullup(tmp, -1), got);
 			evbuffer_free(tmp);
 			break;
 		}
 		/* fall through */
 	default:
 		while (got < n) {
+			size_t rr;
 			m = n - got > sizeof(rbuf) ? sizeof(rbuf) : n - got;
-			m = bufferevent_read(ep->top, rbuf, m);
-			if (!m) break;
-			verify_bytes(ep, rbuf, m);
+			at = ep->consumed; ep->consumed += m;
+			rr = bufferevent_read(ep->top, rbuf, m);
+			if (rr != m) { vh_viol(mkkey(ep->s, "remove-short"), "bufferevent_read(%zu) returned %zu with %zu buffered", m, rr, n - got); ep->s->ended = 1; break; }
+			verify_at(ep, at, rbuf, m);
 			got += m;
 		}
 	}
+	consume_depth--;
 	vh_stat_add("bytes_consumed", (long)got);
 	return got;
 }
@@ -637,6 +654,7 @@ static void app_readcb(struct bufferevent *bev, void *arg)
 	case RP_SOME: if (vh_chance(r, 5, 6)) consume(ep, 1 + (size_t)vh_below(r, len + 1)); break;
 	default: if (vh_chance(r, 1, 4)) consume(ep, 1 + (size_t)vh_below(r, len + 1)); break;
 	}
+	if (vh_opt.verbose > 1) VLOG("  [%s] readcb consumed to %llu, input now %zu", side_name(ep), (unsigned long long)ep->consumed, evbuffer_get_length(bufferevent_get_input(bev)));
 	if (ep->tog_in_cb && vh_chance(r, 1, 8)) { bufferevent_disable(bev, EV_READ); vh_stat("toggle_rd_off_in_cb"); }
 	if (ep->write_in_cb && ep->written < ep->total && vh_chance(r, 1, 4)) app_write(ep, pick_chunk(ep));
 }
@@ -1469,8 +1487,9 @@ static void shutdown_phase(struct session *s)
 		s->strict = clean;
 		bufferevent_enable(A->top, EV_WRITE);
 	} else s->strict = clean && all_drained(A) && B->consumed + evbuffer_get_length(B->top->input) == A->written;
-	if (s->strict && s->b_disabled_at_shut) { bufferevent_disable(B->top, EV_READ); b_off = 1; vh_stat("reader_disabled_at_shutdown"); }
-	else s->b_disabled_at_shut = 0;
+	if (s->strict && s->b_disabled_at_shut) { bufferevent_disable(B->top, EV_READ); b_off = 1; }
+	s->b_disabled_at_shut = !(B->top->enabled & EV_READ);
+	if (s->b_disabled_at_shut) vh_stat("reader_disabled_at_shutdown");
 	s->shut_started = 1;
 	vh_stat(sm_name[mode]);
 	VLOG("  shutdown %s strict=%d b_off=%d", sm_name[mode], s->strict, b_off);
